@@ -159,10 +159,10 @@ func Harness_C02_pipe() {
 	b := NewBridge(ctx, &BridgeConfig{TunnelID: "tun-1", MappingID: "pm1", SourceConn: src, BandwidthLimit: limit})
 	b.SetTargetConnection(c02TunnelConn{dst})
 	done := make(chan struct{})
-	go func() {
+	verif_GoGate(func() {
 		b.Start()
 		close(done)
-	}()
+	})
 	// let the copy loops run as far as they can; a bandwidth limit needs (fake) time to pass
 	time.Sleep(time.Hour)
 	verif_Quiesce()
